@@ -3,10 +3,10 @@ CONSTANTS
   MaxOps = 2
   Orgs = {"o1"}
   SeedNames = {"A","B","C"}
-  Unflushed = {"CreateOrg","UpdateOrg","CreateTeam","RevokeToken","DeleteToken"}
+  Unflushed = {"CreateOrg","UpdateOrg","CreateTeam","DeleteToken"}
   AuthUnflushed = {}
   ExpirePos = {0}
-  ExpireBefore = {"DeleteOrg","UpdateTeam","DeleteTeam","CreateRole","UpdateRole","DeleteRole","CreateMP","DeleteMP"}
+  ExpireBefore = {"ReseedOrg","DeleteOrg","UpdateTeam","DeleteTeam","CreateRole","UpdateRole","DeleteRole","CreateMP","DeleteMP"}
   TeamScan = FALSE
   Emit = TRUE
 INVARIANTS Integrity EmitInv
